@@ -188,7 +188,7 @@ theorem grow_obj_keyE (src : Array UInt8) (st : St) (i : Nat) (n : Node) (x y : 
   rw [h]
   simp only [hk, hw]
   have : ((LexT.keyE == LexT.ksE) = false) := rfl
-  simp only [this, hd]
+  simp only [this, hd, Bool.false_and, Bool.false_eq_true, if_false]
   rfl
 
 /-- a key that repeats (after decoding) an earlier key of the object: error 402 at the key's offset -/
@@ -200,7 +200,7 @@ theorem grow_obj_keyE_dup (src : Array UInt8) (st : St) (i : Nat) (n : Node) (x 
   rw [h]
   simp only [hk, hw]
   have : ((LexT.keyE == LexT.ksE) = false) := rfl
-  simp only [this, hd]
+  simp only [this, hd, Bool.false_and, Bool.false_eq_true, if_false]
   rfl
 
 /-- an array waiting for an item / an object waiting for a member value creates the child node -/
